@@ -42,9 +42,13 @@ def rule_mask(E, R):
     S = sem.Sem(E, h)
     t = S.resolve(fn_result(h), S.root).node
     shape = mask_is_self = False
-    if t.get("k") == "Binary" and ((t["op"] == "Ne" and lit_value(t["r"]) == 0) or (t["op"] == "Gt" and lit_value(t["r"]) == 0)) and \
-            strip(t["l"]).get("op") == "BitAnd":
-        sides = [S.resolve(strip(t["l"])["l"], S.root).node, S.resolve(strip(t["l"])["r"], S.root).node]
+    # `x & y != 0` (or `> 0`), written with the zero on either side
+    band = None
+    if t.get("k") == "Binary":
+        if (t["op"] in ("Ne", "Gt") and lit_value(t["r"]) == 0) or (t["op"] in ("Ne", "Lt") and lit_value(t["l"]) == 0):
+            band = deref(t["l"]) if lit_value(t["r"]) == 0 else deref(t["r"])
+    if band is not None and band.get("op") == "BitAnd":
+        sides = [S.resolve(band["l"], S.root).node, S.resolve(band["r"], S.root).node]
         casts = [x for x in sides if x.get("k") == "Cast" and sem.param_index(S, x["e"], S.root) == 0]
         tables = [x for x in sides if x.get("k") == "Match" and sem.param_index(S, x["scrut"], S.root) == 1]
         mask_is_self = len(casts) == 1
